@@ -41,8 +41,13 @@ def random_nac(ph, rng, method="wang", factor=14.399652, zero=False):
     return {"born": np.array(Z, dtype="double", order="C"), "dielectric": np.array(eps, dtype="double", order="C"), "factor": float(factor), "method": method}
 
 
-def bz_reduce(q, pcell):
-    """Harness' own reduction of a reduced q to the first Brillouin zone: (shortest representative, number of ties)."""
+def bz_reduce(q, pcell, near=False):
+    """Harness' own reduction of a reduced q to the first Brillouin zone: (shortest representative, number of ties).
+
+    near=True counts what phonopy's BrillouinZone class counts as ties (squared length within 0.01 x the smallest squared reciprocal basis
+    length of the minimum): the Gonze-Lee construction takes the FIRST of those images, which need not be the shortest one, so a q with
+    near-ties may be evaluated at another image than the one the short-range constants were built from (thorough sweep, seed 0, triclinic
+    4x2x2: images 0.4 % apart in squared length, deviation 2.5e-6 = the reciprocal-sum precision)."""
     import itertools
 
     rec = np.linalg.inv(np.array(pcell, float))  # columns: reciprocal basis (no 2pi)
@@ -56,6 +61,10 @@ def bz_reduce(q, pcell):
             best, reps = ln, [qq]
         elif abs(ln - best) <= 1e-8:
             reps.append(qq)
+    if near:
+        tol2 = 0.01 * float(np.min(np.sum(rec ** 2, axis=0)))
+        n_near = sum(1 for G in itertools.product(range(-2, 3), repeat=3) if np.linalg.norm(rec @ (q + np.array(G))) ** 2 < best ** 2 + tol2)
+        return reps[0], max(len(reps), n_near)
     return reps[0], len(reps)
 
 
